@@ -30,6 +30,7 @@ type lruInst struct {
 	w      *wlru.Cache // nil for simplewlru
 	mw, mn int
 	evlog  []interface{}
+	nocb   bool
 }
 
 func num(v interface{}) int {
@@ -38,13 +39,31 @@ func num(v interface{}) int {
 }
 
 func newLRU(threadSafe bool) func(pre interface{}) (replay.Inst, error) {
+	return newLRUcb(threadSafe, true)
+}
+
+// newLRUcb: withCb=false builds the cache without an eviction callback (simplewlru.New / wlru.New); evictions are then
+// observable only through the returned counts and the projected state.
+func newLRUcb(threadSafe, withCb bool) func(pre interface{}) (replay.Inst, error) {
 	return func(pre interface{}) (replay.Inst, error) {
 		p := pre.(map[string]interface{})
-		in := &lruInst{mw: num(p["mw"]), mn: num(p["mn"])}
+		in := &lruInst{mw: num(p["mw"]), mn: num(p["mn"]), nocb: !withCb}
 		onEv := func(k, v interface{}) {
 			in.evlog = append(in.evlog, map[string]interface{}{"k": k, "v": v})
 		}
-		if threadSafe {
+		if !withCb && threadSafe {
+			c, err := wlru.New(uint(in.mw), in.mn)
+			if err != nil {
+				return nil, err
+			}
+			in.c, in.w = c, c
+		} else if !withCb {
+			c, err := simplewlru.New(uint(in.mw), in.mn)
+			if err != nil {
+				return nil, err
+			}
+			in.c = c
+		} else if threadSafe {
 			c, err := wlru.NewWithEvict(uint(in.mw), in.mn, onEv)
 			if err != nil {
 				return nil, err
@@ -111,6 +130,9 @@ func (in *lruInst) Apply(act map[string]interface{}) (map[string]interface{}, er
 	case "purge":
 		n := in.c.Len()
 		in.c.Purge()
+		if in.nocb {
+			return map[string]interface{}{"res": map[string]interface{}{"n": n}}, nil
+		}
 		return map[string]interface{}{"res": map[string]interface{}{"n": n}, "evset": replay.Set(in.evlog)}, nil
 	case "containsoradd":
 		ok, ev := in.w.ContainsOrAdd(k, v, w)
@@ -123,6 +145,9 @@ func (in *lruInst) Apply(act map[string]interface{}) (map[string]interface{}, er
 		res = map[string]interface{}{"ok": ok, "prev": prev, "evicted": ev}
 	default:
 		return nil, fmt.Errorf("unknown op %v", act["op"])
+	}
+	if in.nocb {
+		return map[string]interface{}{"res": res}, nil
 	}
 	return map[string]interface{}{"res": res, "evlog": in.evlog}, nil
 }
@@ -146,5 +171,9 @@ func LRUAdapters() []replay.Adapter {
 			return act["op"] == "containsoradd" || act["op"] == "peekoradd"
 		}},
 		{Name: "wlru", New: newLRU(true)},
+		{Name: "simplewlru-nocb", New: newLRUcb(false, false), Skip: func(act map[string]interface{}) bool {
+			return act["op"] == "containsoradd" || act["op"] == "peekoradd"
+		}},
+		{Name: "wlru-nocb", New: newLRUcb(true, false)},
 	}
 }
